@@ -9,7 +9,8 @@
    (vplib/props/c12.py), not by these theorems; panic sites outside the modelled functions are counted, not proved. *)
 From Coq Require Import List ZArith NArith Bool Arith.
 From PV Require Import Lib.ListX Model.Checked Model.RangeArith Model.WidthArith Model.ReviewedSites Model.Span
-  Model.CheckedNest Model.SitesBaseline
+  Model.CheckedNest Model.SitesBaseline Model.Closure
+  Proofs.ClosureProofs Gen.GenUnpack
   Proofs.CheckedProofs Proofs.RangeArithProofs Proofs.WidthArithProofs Proofs.ReviewedSitesProofs Proofs.SpanProofs
   Proofs.CheckedNestProofs Gen.GenSites.
 Import ListNotations.
@@ -254,6 +255,40 @@ Theorem c12_reviewed_lookup_cid_name : forall (A : Type) (v : A), lookup_cid_nam
 Proof. exact @lookup_cid_name_total_lemma. Qed.
 Print Assumptions c12_reviewed_lookup_cid_name.
 
+(* ------------------------------------------------------------------ how many arguments reach unpack::<N> *)
+(* Gen/GenUnpack.v lists the arms of resolve_special_func with the N of their `unpack::<N>(func.args)` and the std.prql
+   declarations `.. -> internal <name>` with their named / positional parameter counts (regenerated on every run).
+   N = named + positional for every arm, every arm has a declaration and every declaration an arm: *)
+Theorem c12_unpack_table_ok : unpack_table_ok GenUnpack.arms GenUnpack.decls = true.
+Proof. vm_compute. reflexivity. Qed.
+Print Assumptions c12_unpack_table_ok.
+
+(* ... so the std functions themselves satisfy the hypothesis of the next theorem (link between table and model) *)
+Theorem c12_std_fns_lambda_free :
+  forallb (fun d => lambda_free (arity_of GenUnpack.arms) (std_fn d)) GenUnpack.decls = true.
+Proof. vm_compute. reflexivity. Qed.
+Print Assumptions c12_std_fns_lambda_free.
+
+(* Full statement (FALSE, finding C12-N14): forall fuel e id g, fold arity fuel e <> BadCast id g.
+   Model/Closure.v mirrors fold_function / apply_args_to_closure / materialize_function: when the body of a lambda folds
+   to a partially applied function, materialize_function wraps it and cuts the inner closure's parameter list down to
+   the arguments it already has; the remaining arguments are bound by name only, so a built-in (`internal`) body is
+   evaluated with too few: `from t | -> take 5` reaches unpack::<2> with one argument. *)
+Theorem c12_unpack_exact_refuted : exists e id g,
+  fold (arity_of GenUnpack.arms) 10 e = BadCast id g /\ arity_of GenUnpack.arms id <> Some g.
+Proof.
+  exists (App (Fn 0 0 [] (Body (App (Fn 0 2 [] (Internal [116;97;107;101]%N)) [Val]))) [Val]), [116;97;107;101]%N, 1.
+  split; [vm_compute; reflexivity | vm_compute; discriminate].
+Qed.
+Print Assumptions c12_unpack_exact_refuted.
+
+(* Without PRQL-bodied functions (every function a std function with the parameter counts of its declaration, applied
+   in any number of steps, to any arguments, partially, in excess, nested as arguments): never a wrong count. *)
+Theorem c12_unpack_exact_partial : forall (arity : str -> option nat) fuel e,
+  lambda_free arity e = true -> forall id g, fold arity fuel e <> BadCast id g.
+Proof. exact lambda_free_no_bad_cast. Qed.
+Print Assumptions c12_unpack_exact_partial.
+
 (* ------------------------------------------------------------------ nesting is unbounded in the input size *)
 Theorem c12_unbounded_depth : forall d, length (nest d) = 2 * d + 1 /\ bracket_depth (nest d) = d.
 Proof. exact unbounded_depth_lemma. Qed.
@@ -298,4 +333,11 @@ Proof. split; vm_compute; reflexivity. Qed.
 Local Open Scope Z_scope.
 Example c12_ex_indent_32768 : reset_line (WOpt 50 50 32768) = Ret None /\
   reset_line (WOpt u16_max 0 32768) = Ret (Some (WOpt u16_max 0 32768)) /\ mul16 2 32768 = Panic.
+Proof. repeat split; vm_compute; reflexivity. Qed.
+Local Close Scope Z_scope.
+(* `from t | take 5` (direct), `let top = take 5` / `from t | top` (curried), and the lambda around it *)
+Example c12_ex_unpack_direct :
+  fold (arity_of GenUnpack.arms) 10 (App (App (Fn 0 2 [] (Internal [116;97;107;101]%N)) [Val]) [Val]) = Ok Val /\
+  lambda_free (arity_of GenUnpack.arms) (App (App (Fn 0 2 [] (Internal [116;97;107;101]%N)) [Val]) [Val]) = true /\
+  lambda_free (arity_of GenUnpack.arms) (App (Fn 0 0 [] (Body (App (Fn 0 2 [] (Internal [116;97;107;101]%N)) [Val]))) [Val]) = false.
 Proof. repeat split; vm_compute; reflexivity. Qed.
